@@ -35,7 +35,21 @@ import (
 	"github.com/LemoFoundationLtd/lemochain-core/network/p2p"
 )
 
-func init() { subs["c15hammer"] = c15Hammer }
+func init() {
+	subs["c15hammer"] = c15Hammer
+	subs["c15sites"] = func(c *Ctx) { // prints the extracted fact rows (used to write the Lean tables)
+		rows, err := c15SiteRows()
+		fmt.Println(err)
+		for _, r := range rows {
+			fmt.Println("SITE", r)
+		}
+		rows, err = c15CloseFacts()
+		fmt.Println(err)
+		for _, r := range rows {
+			fmt.Println("CLOSE", r)
+		}
+	}
+}
 
 // ---------------------------------------------------------------- T2: close sites
 
